@@ -109,6 +109,11 @@ def rule_elision(model, rep):
                                   f"`{fld}` is omitted when it equals the literal {k!r}, but the loader fills a missing `{fld}` from the class attribute that TOTP.using() can rebind",
                                   witness=f"T = TOTP.using({fld}={'8' if fld=='digits' else ('60' if fld=='period' else repr('sha256'))}); T.from_source(T(key, {fld}={k!r}).to_dict()) "
                                           f"has {fld} != {k!r}: a different code generator after the round trip")
+                elif q == "TOTP._to_uri_params":
+                    # the otpauth:// key-URI format is read by third-party authenticator apps, which assume sha1 / 6 / 30 for an absent parameter
+                    rep.violation(R, site(q), f"self.{fld} != {ast.unparse(n.test.comparators[0])}  # not the key-URI default {RFC_DEFAULTS[fld]!r}",
+                                  f"`{fld}` is left out of the URI when it equals something other than the format's own default ({RFC_DEFAULTS[fld]!r})",
+                                  witness=f"T = TOTP.using({fld}=<non-default>); T(key).to_uri(label) carries no `{fld}`; TOTP.from_source(uri) (or any authenticator app) rebuilds {RFC_DEFAULTS[fld]!r}: different codes")
                 else:
                     rep.hold(R, site(q), f"{fld} compared with {ast.unparse(n.test.comparators[0])}")
         if seen != set(RFC_DEFAULTS):
@@ -230,6 +235,8 @@ def run(model, rep):
     rule_elision(model, rep)
     rule_uri(model, rep)
     rule_wallet(model, rep)
+    from . import c13 as _c13
+    _c13.rule_key_caches(model, _Renamed(rep, {"C13.e": "C15.g-key-derived-caches"}, "C15.x-"))
     # keys travel as base32 / hex text in every serialisation: the helper codecs are part of the round trip
     _c12.rule_alphabets(model, _Renamed(rep, {"C12.e": "C15.f-codec-alphabets", "C12.f": "C15.f-key-codecs"}, "C15.x-",
                                           only=lambda s: ("b32" in s or "BASE64_CHARS" in s) and not s.startswith("libpass")))
